@@ -318,6 +318,8 @@ PROPS = {
             {"engine": "K", "crate": "k_proto", "harnesses": [
                 kh(f"c12_decoders_never_panic_len{n}", f"record bytes: from_record / is_record_of_type_chunk / try_deserialize_record on {n}-byte records (shared with C12)", f"all contents, length {n}", K_STUBS_TRACING + ["rmp_serde::from_slice -> Err"])
                 for n in (0, 1, 2, 3, 4)
+            ] + [
+                kh("c12_kind_decoder_inverse_of_encoder", "RecordKind decoder on every u32 tag: a kind or an error, never a panic (shared with C12)", "all 2^32 tag values"),
             ]},
             {"engine": "D", "crate": "d_boot", "harnesses": [
                 {"name": "c18_untrusted_file", "covers": ["loaded"], "quick": {"max_paths": 10000, "timeout": 300}},
